@@ -21,8 +21,12 @@ use crate::scenario::{ReqKind, ALL_REQ_KINDS};
 pub struct GInc {
     /// the string in the include statement ("f1.td", "sub/f0.td", "missing3.td", ...)
     pub name: String,
-    /// the statement sits inside `let ... in { }` instead of at top level
+    /// the statement sits inside a block instead of at top level
     pub nested: bool,
+    /// which block: 0 `let ... in { }`, 1 a defset body, 2 a foreach body, 3 the then-branch
+    /// and 4 the else-branch of an `if`
+    #[serde(default)]
+    pub wrap: u8,
 }
 
 #[derive(Clone, Debug, PartialEq, Eq, Serialize, Deserialize)]
@@ -61,9 +65,15 @@ impl Graph {
     pub fn render(&self, i: usize) -> (String, Vec<(usize, usize, usize, usize)>) {
         let mut s = String::new();
         let mut spans = Vec::new();
-        for inc in &self.files[i].includes {
+        for (n, inc) in self.files[i].includes.iter().enumerate() {
             if inc.nested {
-                s.push_str("let z = 1 in { ");
+                match inc.wrap {
+                    1 => s.push_str(&format!("class W{n}; defset list<W{n}> S{n} = {{ ")),
+                    2 => s.push_str("foreach w = [1, 2] in { "),
+                    3 => s.push_str("if 1 then { "),
+                    4 => s.push_str("if 0 then { } else { "),
+                    _ => s.push_str("let z = 1 in { "),
+                }
             }
             let st = s.len();
             s.push_str("include ");
@@ -223,11 +233,11 @@ fn gen_ladder(rng: &mut Rng, allow_nested: bool) -> Graph {
         let sides: Vec<String> = ["a", "b", "c"][..if rng.chance(1, 5) { 3 } else { 2 }].iter().map(|s| format!("{s}{i}.td")).collect();
         let li = files.iter().position(|f| f.path == format!("/w/{}", rail(i))).unwrap();
         for sname in &sides {
-            files[li].includes.push(GInc { name: sname.clone(), nested: nested && rng.chance(1, 3) });
+            files[li].includes.push(GInc { name: sname.clone(), nested: nested && rng.chance(1, 3), wrap: rng.below(5) as u8 });
         }
         let last = i + 1 == rungs;
         for sname in &sides {
-            let includes = if last { vec![] } else { vec![GInc { name: rail(i + 1), nested: false }] };
+            let includes = if last { vec![] } else { vec![GInc { name: rail(i + 1), nested: false, wrap: 0 }] };
             files.push(GFile { path: format!("/w/{sname}"), includes });
         }
         if !last {
@@ -237,7 +247,7 @@ fn gen_ladder(rng: &mut Rng, allow_nested: bool) -> Graph {
     if rng.chance(1, 3) {
         // the bottom closes a cycle back to the top
         let n = files.len();
-        files[n - 1].includes.push(GInc { name: "f0.td".into(), nested: false });
+        files[n - 1].includes.push(GInc { name: "f0.td".into(), nested: false, wrap: 0 });
     }
     Graph { files, unreadable: Vec::new(), include_dir: None, root: 0, hidden: Vec::new(), second_hidden: None }
 }
@@ -291,7 +301,7 @@ pub fn gen_graph(rng: &mut Rng, allow_nested: bool) -> Graph {
         if chain && i + 1 < files.len() {
             // a long chain: file i includes file i+1 by a path that resolves from its directory
             let next = files[i + 1].path.clone();
-            files[i].includes.push(GInc { name: next, nested: false });
+            files[i].includes.push(GInc { name: next, nested: false, wrap: 0 });
         }
         let deg = if large && !chain && i == 0 { rng.range(8, 20) } else { [0, 1, 1, 2, 2, 3][rng.below(6)] };
         for _ in 0..deg {
@@ -333,7 +343,7 @@ pub fn gen_graph(rng: &mut Rng, allow_nested: bool) -> Graph {
                     p[p.rfind('/').unwrap() + 1..].to_string()
                 }
             };
-            files[i].includes.push(GInc { name, nested: nested_graph && rng.chance(1, 2) });
+            files[i].includes.push(GInc { name, nested: nested_graph && rng.chance(1, 2), wrap: rng.below(5) as u8 });
         }
     }
     // A third of the graphs get a second root selection after the disk changed: a file that
